@@ -33,7 +33,9 @@ def tableOracle (dj : List (Pred × Pred)) (un : List Pred) : Oracle :=
     `(pending <site> why)` a site is still pending where only the first success is kept and the first
     successes are not known to agree (`why = 17`: the site passed `\B`, `1`: a lazy loop made greedy),
     `(other code)` a difference that is not one of the modelled rewrites.
-    `<site>` = `(acc pred)` | `(btw pred)` | `(top)`. -/
+    `<site>` = `(acc pred)` | `(btw pred)` | `(top)`.
+
+    `(c05 endfix <p'>)` → `(ok 0|1)`: is the tree a fixed point of `endAtomicTop`? -/
 def handleC05 (args : List Sexp) : String :=
   match args with
   | [.atom "cert", rtl, p, p', dj, un] =>
@@ -46,6 +48,11 @@ def handleC05 (args : List Sexp) : String :=
         toString (Sexp.list [.atom "ok", ofBool (certTopDir o rtl p p'), mk "made" [ofNat r.made], mk "errs" (r.errs.map errSexp)])
       | _, _ => "(bad-oracle)"
     | _, _, _, _, _ => "(bad-args)"
+  | [.atom "endfix", p] =>
+    -- the engine's final left-to-right tree is a fixed point of Lean's model of eliminateEndingBacktracking
+    match pat? p with
+    | some p => if endAtomicTop p = p then "(ok 1)" else "(ok 0)"
+    | none => "(bad-args)"
   | _ => "(bad-op)"
 
 end RegexVerif.Driver
